@@ -516,7 +516,11 @@ def _run_case(tokens, wspbus, fake_atexit, tshim, var):
             rs = []
             with warnings.catch_warnings(record=True) as wlist:
                 warnings.simplefilter('always')
-                for fn, a, k in reversed(list(fake_atexit.handlers)):
+                todo = []
+                for h in reversed(list(fake_atexit.handlers)):
+                    if h not in todo:       # start() registers the same bound method every time: run it once
+                        todo.append(h)
+                for fn, a, k in todo:
                     r = outcome(lambda: fn(*a, **k))
                     rs.append(r)
                     if isinstance(r, str) and (r.startswith('procexit') or r in ('execv', 'hang', 'deep')):
